@@ -256,6 +256,9 @@ func runC04(p *Program, r *Report) {
 	checkActionMarksStart(p, r, "C04.R15")
 	checkVoidDropKeepsMixedElement(p, r, "C04.R17")
 	checkSpecialNamesAreOneElement(p, r, "C04.R18")
+	// the policy for a link's href is chosen from the recorded rel values: how they are recorded is part of the policy
+	checkLinkRelDerivation(p, r, "C04.R19")
+	checkActionMarksRelUnknown(p, r, "C04.R19")
 	checkCandidateListsNonEmpty(p, r, textAfterStartValidator(p), "C04.R16")
 	checkContextEqStrict(p, r, "C04.R9")
 	checkNewAttributeStartsClean(p, r, "C04.R10")
